@@ -83,11 +83,7 @@ class TracedMech:
             elif joins and rnd.random() < 0.3:
                 self.do(rnd.choice(joins))
             else:
-                restart = [d for d in prog if d == ("rc", "restart")]
-                if restart and rnd.random() < 0.85:
-                    self.do(restart[0])  # reuse the mechanic rather than tearing it down
-                else:
-                    self.do(rnd.choice(prog))
+                self.do(rnd.choice(prog))
         return followed, skipped
 
     def trace(self, tid):
